@@ -237,7 +237,7 @@ func HarnessC15Check() {
 	}
 	// patterns are matched against the message text only: anchors refer to the message, and text
 	// that only occurs in the printed form (position, [kind]) matches nothing
-	pats := []string{"undefined variable", "could not parse", "no such text", "^undefined variable", `\[expression\]$`, `^:[0-9]+:`, `more details$|^could not parse|key "nope"`}
+	pats := []string{"undefined variable", "could not parse", "no such text", "^undefined variable", `\[expression\]$`, `^:[0-9]+:`, `more details$|^could not parse|key "nope"`, "UNDEFINED VARIABLE"}
 	src := srcs[verifChoose("source", len(srcs))]
 	pat := pats[verifChoose("pattern", len(pats))]
 	viaConfig := verifChoose("via", 2) == 1
@@ -254,11 +254,19 @@ func HarnessC15Check() {
 	l0 := verifLinter("/r", "", "")
 	all, err := l0.LintFile(".github/workflows/w.yml", nil)
 	verifCheck(err == nil && len(all) >= 1, "lint-failed")
+	// on the command line the pattern comes second, after one with an inline flag that matches nothing:
+	// every -ignore pattern is applied on its own
+	first := "(?i)NO SUCH DIAGNOSTIC"
 	l := verifLinter("/r", "", "")
 	if viaConfig {
 		verifC15PathsPattern = pat
 	} else {
-		l.ignorePats = []*regexp.Regexp{regexp.MustCompile(pat)}
+		var err error
+		l, err = NewLinter(io.Discard, &LinterOptions{WorkingDir: "/r", IgnorePatterns: []string{first, pat}})
+		verifCheck(err == nil && l != nil, "harness-linter-not-created")
+		if l == nil {
+			return
+		}
 	}
 	errs, err := l.LintFile(".github/workflows/w.yml", nil)
 	verifCheck(err == nil, "lint-failed")
